@@ -37,7 +37,7 @@ VARIABLES
     use,      \* mgr.usedIndexes: [file id -> Nat], only non-zero entries
     tags,     \* mgr.tags: [name -> [def, M, U, convs, refBy]]
     flags,    \* [merge, tag, conv : BOOLEAN]  the three ...JobRunning flags
-    during,   \* [upd, res, add] the three ...DuringTaggingJob masks
+    during,   \* [upd, res, add] the three ...DuringTaggingJob masks; inv = invalidatedStreamsDuringConverterJob
     unmerge,  \* mgr.nUnmergeableIndexes
     jobs,     \* [import, tag, merge, conv] job records (snapshot taken + result computed)
     views,    \* open views: [view id -> [idx, td]]
@@ -136,6 +136,10 @@ Invalidate(tg, upd, res, add, next, all) ==
         IF FeatSub(tg[t].def) THEN [tg[t] EXCEPT !.U = all]
         ELSE IF FeatIdOnly(tg[t].def) THEN [tg[t] EXCEPT !.M = @ \cup (MarkIDs(tg[t].def, next) \cap add)]
         ELSE [tg[t] EXCEPT !.U = @ \cup add \cup res \cup (IF FeatData(tg[t].def) THEN upd ELSE {})]], all)
+\* ... and queued for the converters attached to them
+InvalidateTC(tg, tc, add, next) ==
+    [c \in DOMAIN tc |-> tc[c] \cup UNION {MarkIDs(tg[t].def, next) \cap add :
+                                           t \in {u \in DOMAIN tg : FeatIdOnly(tg[u].def) /\ ~FeatSub(tg[u].def) /\ c \in tg[u].convs}}]
 
 NoJob(kind) ==
     CASE kind = "import" -> [phase |-> "none", batch |-> <<>>, idx |-> <<>>, next |-> 0, file |-> "",
@@ -154,7 +158,7 @@ Bundle(tg, fl, jb, us, du, tc) == [tags |-> tg, flags |-> fl, jobs |-> jb, use |
 
 StartTag(b, idx, pick) ==
     IF pick = "" THEN b
-    ELSE [b EXCEPT !.during = [upd |-> {}, res |-> {}, add |-> {}],
+    ELSE [b EXCEPT !.during = [b.during EXCEPT !.upd = {}, !.res = {}, !.add = {}],
                    !.flags.tag = TRUE,
                    !.use = LockSeq(b.use, idx),
                    !.jobs.tag = [phase |-> "start", tag |-> pick, def |-> b.tags[pick].def,
@@ -197,7 +201,7 @@ Init ==
     /\ files = <<>> /\ indexes = <<>> /\ use = <<>>
     /\ tags = <<>>
     /\ flags = [merge |-> FALSE, tag |-> FALSE, conv |-> FALSE]
-    /\ during = [upd |-> {}, res |-> {}, add |-> {}]
+    /\ during = [upd |-> {}, res |-> {}, add |-> {}, inv |-> {}]
     /\ unmerge = 0
     /\ jobs = [k \in {"import", "tag", "merge", "conv"} |-> NoJob(k)]
     /\ views = <<>>
@@ -262,9 +266,10 @@ ImportDone(pick) ==
         rel == ReleaseSeq(use, files, j.idx)
         idx1 == Append(indexes, j.file)
         use1 == LockSeq(rel[1], <<j.file>>)
-        du1 == [upd |-> during.upd \cup j.upd, res |-> during.res \cup j.res, add |-> during.add \cup j.add]
+        du1 == [upd |-> during.upd \cup j.upd, res |-> during.res \cup j.res, add |-> during.add \cup j.add,
+                inv |-> IF flags.conv THEN during.inv \cup j.upd \cup j.res ELSE during.inv]
         tg1 == Invalidate(tags, j.upd, j.res, j.add, j.next + j.used, 0 .. (j.next + j.used - 1))
-        ic == InvalidateConv(toConv, cache, j.upd)
+        ic == InvalidateConv(InvalidateTC(tags, toConv, j.add, j.next + j.used), cache, j.upd \cup j.res)
         q1 == SubSeqFrom(queue, Len(j.batch) + 1)
         next1 == j.next + j.used
         \* queued captures: start the next import job with everything that is queued
@@ -308,8 +313,9 @@ TagDone(pick) ==
         tc1 == IF same THEN [c \in DOMAIN toConv |-> IF c \in tags[j.tag].convs THEN toConv[c] \cup j.M1 ELSE toConv[c]]
                ELSE toConv
         tg2 == IF same THEN Invalidate(tg1, during.upd, during.res, during.add, nextID, allS) ELSE tg1
+        tc2 == IF same THEN InvalidateTC(tg1, tc1, during.add, nextID) ELSE tc1
         fl1 == [flags EXCEPT !.tag = FALSE]
-        b0 == Bundle(tg2, fl1, [jobs EXCEPT !.tag = NoJob("tag")], use, during, tc1)
+        b0 == Bundle(tg2, fl1, [jobs EXCEPT !.tag = NoJob("tag")], use, during, tc2)
         b1 == StartTag(b0, indexes, pick)
         b2 == StartConv(b1, indexes)
         b3 == StartMerge(b2, indexes, files, unmerge)
@@ -375,11 +381,13 @@ ConvCompute ==
 ConvDone(pick) ==
     LET j == jobs.conv
         conv == UNION {j.ids[c] : c \in DOMAIN j.ids}
+        \* streams invalidated while the job ran are invalidated again (the job may have cached their old data)
+        ic == InvalidateConv(toConv, cache, during.inv)
         tg1 == Inherit([t \in DOMAIN tags |->
                     IF tags[t].def.k = "D" THEN [tags[t] EXCEPT !.U = @ \cup conv] ELSE tags[t]], allS)
-        du1 == [during EXCEPT !.upd = @ \cup conv]
+        du1 == [during EXCEPT !.upd = @ \cup conv, !.inv = {}]
         fl1 == [flags EXCEPT !.conv = FALSE]
-        b0 == Bundle(tg1, fl1, [jobs EXCEPT !.conv = NoJob("conv")], use, du1, toConv)
+        b0 == Bundle(tg1, fl1, [jobs EXCEPT !.conv = NoJob("conv")], use, du1, ic[1])
         b1 == StartTag(b0, indexes, pick)
         b2 == StartConv(b1, indexes)
         rel == ReleaseSeq(b2.use, files, j.idx)
@@ -388,7 +396,8 @@ ConvDone(pick) ==
     /\ pick \in TagPicks(tg1, fl1)
     /\ Install([b2 EXCEPT !.use = rel[1]])
     /\ files' = rel[2]
-    /\ UNCHANGED <<known, queue, nextID, allS, indexes, unmerge, views, cache>>
+    /\ cache' = ic[2]
+    /\ UNCHANGED <<known, queue, nextID, allS, indexes, unmerge, views>>
 
 -----------------------------------------------------------------------------
 (* ---------- tag API ----------
@@ -420,12 +429,44 @@ AddTag(name, d, pick) ==
           /\ Install(b1)
     /\ UNCHANGED <<known, queue, nextID, allS, files, indexes, unmerge, views, cache>>
 
+\* detachConverterFromTag (manager.go:1884-1917) for a set of converters; returns <<toConv', cache'>>
+\* (a converter that no other tag with matches uses is reset: its cache is dropped)
+OthersWith(tg, name, c) == UNION {tg[t].M : t \in {u \in DOMAIN tg : u # name /\ c \in tg[u].convs}}
+Detach(tg, tc, ca, name, cs) ==
+    <<[c \in DOMAIN tc |-> IF c \in cs THEN tc[c] \ (tg[name].M \ OthersWith(tg, name, c)) ELSE tc[c]],
+      [c \in DOMAIN ca |-> IF c \in cs /\ OthersWith(tg, name, c) = {} THEN {} ELSE ca[c]]>>
+
 DelTagOK(name) == name \in DOMAIN tags /\ tags[name].refBy = {}
 DelTag(name) ==
     /\ DelTagOK(name)
-    /\ tags[name].convs = {}                         \* detaching converters: see SetConverters
+    /\ LET d == Detach(tags, toConv, cache, name, tags[name].convs) IN toConv' = d[1] /\ cache' = d[2]
     /\ tags' = DelRefBy(Without(tags, name), name, Refs(tags[name].def))
-    /\ UNCHANGED <<known, queue, nextID, allS, files, indexes, use, flags, during, unmerge, jobs, views, toConv, cache>>
+    /\ UNCHANGED <<known, queue, nextID, allS, files, indexes, use, flags, during, unmerge, jobs, views>>
+
+\* UpdateTag(converter_set) (manager.go:1237-1262)
+SetConvOK(name, cs) ==
+    /\ name \in DOMAIN tags
+    /\ cs \subseteq DOMAIN toConv
+    /\ (cs \ tags[name].convs # {}) => FeatConvOK(tags[name].def)
+SetConverters(name, cs) ==
+    /\ SetConvOK(name, cs)
+    /\ LET old == tags[name]
+           d == Detach(tags, toConv, cache, name, old.convs \ cs)
+           tc1 == [c \in DOMAIN toConv |-> IF c \in cs \ old.convs THEN d[1][c] \cup old.M ELSE d[1][c]]
+           tg1 == [tags EXCEPT ![name].convs = cs]
+           b0 == Bundle(tg1, flags, jobs, use, during, tc1)
+           b1 == StartConv(b0, indexes)
+       IN Install(b1) /\ cache' = d[2]
+    /\ UNCHANGED <<known, queue, nextID, allS, files, indexes, unmerge, views>>
+
+\* ResetConverter / restartConverterProcess (manager.go:1832-1863)
+ConvReset(c) ==
+    /\ c \in DOMAIN toConv
+    /\ cache' = [cache EXCEPT ![c] = {}]
+    /\ LET tc1 == [toConv EXCEPT ![c] = @ \cup UNION {tags[t].M : t \in {u \in DOMAIN tags : c \in tags[u].convs}}]
+           b1 == StartConv(Bundle(tags, flags, jobs, use, during, tc1), indexes)
+       IN Install(b1)
+    /\ UNCHANGED <<known, queue, nextID, allS, files, indexes, unmerge, views>>
 
 \* UpdateTag(change query) (manager.go:1160-1236)
 UpdQueryOK(name, d) ==
@@ -501,6 +542,13 @@ ViewRelease(v) ==
     /\ LET rel == ReleaseSeq(use, files, views[v].idx) IN use' = rel[1] /\ files' = rel[2]
     /\ views' = Without(views, v)
     /\ UNCHANGED <<known, queue, nextID, allS, indexes, tags, flags, during, unmerge, jobs, toConv, cache>>
+\* StreamContext.Data(converter) (manager.go:2552-2577): converts on demand, outside the loop, from the view's snapshot
+ViewConvert(v, s, c) ==
+    /\ v \in DOMAIN views /\ c \in DOMAIN cache
+    /\ \E e \in Visible(views[v].idx) : e[1] = s
+    /\ LET ver == (CHOOSE e \in Visible(views[v].idx) : e[1] = s)[3] IN
+       cache' = [cache EXCEPT ![c] = IF \E x \in @ : x[1] = s THEN @ ELSE @ \cup {<<s, ver>>}]
+    /\ UNCHANGED <<known, queue, nextID, allS, files, indexes, use, tags, flags, during, unmerge, jobs, views, toConv>>
 
 -----------------------------------------------------------------------------
 (* ---------- properties ---------- *)
@@ -554,6 +602,17 @@ ViewComplete == CompleteFor(indexes, Processed)
 \* ids are stable and unique per connection (C08 at service level)
 OneIdPerConn == \A e1, e2 \in Entries(indexes) : e1[2] = e2[2] => e1[1] = e2[1]
 
+\* C16: cached converter output belongs to the stream's current data
+ConvFresh ==
+    \A c \in DOMAIN cache : \A x \in cache[c] :
+        \A e \in Visible(indexes) : e[1] = x[1] => e[3] = x[2]
+\* at quiescence every stream matching a tag with an attached converter has output
+ConvComplete ==
+    \A t \in DOMAIN tags : \A c \in tags[t].convs : c \in DOMAIN cache =>
+        \A e \in Visible(indexes) : e[1] \in tags[t].M => \E x \in cache[c] : x[1] = e[1]
+\* a converter that is attached to no tag has nothing queued
+DetachStops == \A c \in DOMAIN toConv : (\A t \in DOMAIN tags : c \notin tags[t].convs) => toConv[c] = {}
+
 \* C09: nothing left to do and nothing running
 Settled ==
     /\ queue = <<>>
@@ -567,6 +626,7 @@ Stuck ==
     /\ \A k \in DOMAIN jobs : jobs[k].phase = "none"
     /\ ~Settled
 NeverStuck == ~Stuck
+ConvEventually == Settled => ConvComplete
 FlagsMatchJobs ==
     /\ flags.tag = (jobs.tag.phase # "none")
     /\ flags.merge = (jobs.merge.phase # "none")
